@@ -318,3 +318,38 @@ Fixpoint check_C03_sup_first_go (links : list (option nat)) (seen : list tev) (t
   end.
 Definition check_C03_sup_first (links : list (option nat)) (t : list tev) : bool :=
   check_C03_sup_first_go links [] t.
+
+(* ---------- C04/C03: a terminal event is delivered before any later user message ---------- *)
+(* child c has logged the end of its last callback: post_stop returned, a callback after pre_start
+   failed, or a callback after pre_start was cancelled (kill / abort); its cleanup notifies the
+   supervisor in the same step, so the event is in the supervisor's queue from then on *)
+Definition callbacks_over (c : nat) (t : list tev) : bool :=
+  has_ev (fun e => match e with
+                   | TExit j PostStop _ => Nat.eqb j c
+                   | TExit j PreStart _ => false
+                   | TExit j _ (RErr _) | TExit j _ (RPanic _) => Nat.eqb j c
+                   | TCancel j PreStart => false
+                   | TCancel j _ => Nat.eqb j c
+                   | _ => false end) t.
+Definition entered_post_start (c : nat) (t : list tev) : bool :=
+  has_ev (fun e => match e with TEnter j PostStart => Nat.eqb j c | _ => false end) t.
+
+(* whenever supervisor s starts a MESSAGE handler, every child spawn-linked to s whose loop task
+   ran (post_start was entered) and whose callbacks are over has had its terminal event handled *)
+Fixpoint check_C04_terminal_first_go (links : list (option nat)) (seen : list tev) (t : list tev) : bool :=
+  match t with
+  | [] => true
+  | e :: r =>
+    match e with
+    | TEnter s (Handle _) =>
+        forallb (fun c =>
+          match nth c links None with
+          | Some s' => negb (Nat.eqb s s') || negb (entered_post_start c seen && callbacks_over c seen)
+                       || Nat.ltb 0 (count_sup s (fun y => is_terminal y && Nat.eqb (about y) c) seen)
+          | None => true
+          end) (seq 0 (length links))
+    | _ => true
+    end && check_C04_terminal_first_go links (seen ++ [e]) r
+  end.
+Definition check_C04_terminal_first (links : list (option nat)) (t : list tev) : bool :=
+  check_C04_terminal_first_go links [] t.
